@@ -7,7 +7,7 @@ import shutil
 import vlib
 from vlib import sh, log
 
-COMPOSED = ("C", "M", "B", "P")   # control flows that decide by themselves (raw D/R/F are the bare procedures)
+COMPOSED = ("C", "CS", "M", "B", "P")   # control flows that decide by themselves (raw D/R/F are the bare procedures)
 
 
 def parse_info(s):
@@ -25,17 +25,22 @@ def parse_info(s):
 def parse_out(o):
     ret, w, st = o.split(" | ")
     atts = []
-    for m in re.finditer(r"\{([^}]*) g=(\d+) (ok|fail)\}", w):
-        a = parse_info(m.group(1))
-        a["gen"] = int(m.group(2))
-        a["ok"] = m.group(3) == "ok"
+    for m in re.finditer(r"\{p=(\d+) ([^}]*) g=(\d+) (ok|fail)\}", w):
+        a = parse_info(m.group(2))
+        a["pid"] = int(m.group(1))
+        a["gen"] = int(m.group(3))
+        a["ok"] = m.group(4) == "ok"
         atts.append(a)
-    sm = re.match(r"reg\[(.*) e=(\d+)\] wait=(\S+) un=(\d) au=(\d) ne=(\d+) st=(\d+) dn=(\S+) rn=(\S+) fail=(\d+) ln=(\S+) ls=(\S+) rp=(\d+) up=(\d) md=(\d)", st)
+    sm = re.match(r"reg\[(.*)\] un=(\d) au=(\d) ne=(\d+) st=(\d+) dn=(\S+) rn=(\S+) fail=(\d+) ln=(\S+) ls=(\S+) rp=(\d+) up=(\d) md=(\d)", st)
     if not sm:
         raise ValueError("bad state: " + st)
-    state = dict(info=parse_info(sm.group(1)), epoch=int(sm.group(2)), wait=sm.group(3), unstable=sm.group(4) == "1",
-                 dn=[] if sm.group(8) == "-" else [int(x) for x in sm.group(8).split(",")],
-                 rn=sm.group(9), rp=int(sm.group(13)), up=sm.group(14) == "1")
+    parts = {}
+    for ps in sm.group(1).split(" ; "):
+        pm = re.match(r"(\d+):(.*) e=(\d+) w=(\S+)$", ps)
+        parts[int(pm.group(1))] = parse_info(pm.group(2))
+    state = dict(parts=parts, unstable=sm.group(2) == "1",
+                 dn=[] if sm.group(6) == "-" else [int(x) for x in sm.group(6).split(",")],
+                 rn=sm.group(7), rp=int(sm.group(11)), up=sm.group(12) == "1")
     return ret, atts, state
 
 
@@ -77,16 +82,17 @@ def inv_fail(w, replica, with_quorum=True):
 
 
 def oracle_sequence(sid, lines, outs):
-    """lines: [(id, kind, fields)], outs: {id: out}. The property itself on the implementation's writes."""
+    """lines: [(id, kind, fields)], outs: {id: out}. The property itself on the implementation's writes,
+    per partition (every partition is its own raft group with its own ids)."""
     fails = []
     stats = dict(writes=0, ok_writes=0, adds=0, marks=0, finishes=0, swaps=0, panics=0, learner_changes=0,
-                 factor_changes=0, below_raised_factor=0)
+                 factor_changes=0, below_raised_factor=0, rounds_touching_2plus=0)
     replica = None
-    ans = {}
-    stored = None
+    ans = {}       # (pid, node) -> (members, synced)
+    stored = {}    # pid -> info
     dn = []
-    ever = {}      # raft id -> node, over the whole history of the register value
-    maxseen = 0
+    ever = {}      # pid -> {raft id -> node}
+    maxseen = {}
 
     def fail(cid, what, extra):
         fails.append(dict(name="%s-%s" % (what.split(":")[0].replace(" ", "_")[:40], cid), what=what,
@@ -100,107 +106,126 @@ def oracle_sequence(sid, lines, outs):
         ret, atts, state = parse_out(out)
         if kind == "I":
             replica = int(f[0])
-            stored = state["info"]
-            for (n, i) in stored["ids"]:
-                ever[i] = n
-            maxseen = stored["max"]
-            bad = inv_fail(stored, replica)
-            if bad:
-                # the generator must start from a valid layout; not a finding about the code
-                fail(cid, "harness: initial layout invalid: " + bad, {})
+            stored = dict(state["parts"])
+            for pid, info in stored.items():
+                ever[pid] = {i: n for (n, i) in info["ids"]}
+                maxseen[pid] = info["max"]
+                bad = inv_fail(info, replica)
+                if bad:
+                    # the generator must start from a valid layout; not a finding about the code
+                    fail(cid, "harness: initial layout invalid: " + bad, {})
+            if fails:
                 break
             continue
         if kind == "A":
-            for p in f[0].split(";"):
-                k, v = p.split("=", 1)
-                if v == "!":
-                    ans.pop(int(k), None)
-                else:
-                    ms, sy = v.split("/")
-                    ans[int(k)] = (ms, sy == "1")
+            for fld in f:
+                pid, rest = fld.split("@", 1)
+                for p in rest.split(";"):
+                    k, v = p.split("=", 1)
+                    if v == "!":
+                        ans.pop((int(pid), int(k)), None)
+                    else:
+                        ms, sy = v.split("/")
+                        ans[(int(pid), int(k))] = (ms, sy == "1")
         if ret == "panic":
             stats["panics"] += 1
-        before = stored
+        before = dict(stored)
+        per_part = {}
         for w in atts:
+            pid = w["pid"]
+            per_part[pid] = per_part.get(pid, 0) + 1
+            b = before[pid]
+            a = lambda n: ans.get((pid, n), ("x", False))
             stats["writes"] += 1
             # the factor may have been raised by ChangeNamespaceMetaParam: then the stored value itself need not be a
             # majority of it any more; what the code guarantees is (i) a majority is never lost by a write and
             # (ii) a write that shrinks the non-removing set leaves a majority of the factor in effect
             bad = inv_fail(w, replica, with_quorum=False)
-            if not bad and quorum(before, replica) and not quorum(w, replica):
+            if not bad and quorum(b, replica) and not quorum(w, replica):
                 bad = "a write lost the strict majority: %d remaining of replication factor %d" % (len(isr_of(w)), replica)
-            if not bad and len(isr_of(w)) < len(isr_of(before)) and not quorum(w, replica):
+            if not bad and len(isr_of(w)) < len(isr_of(b)) and not quorum(w, replica):
                 bad = "a write shrank the non-removing replicas to %d, not a strict majority of %d" % (len(isr_of(w)), replica)
             if not bad and not quorum(w, replica):
-                stats["below_raised_factor"] = stats.get("below_raised_factor", 0) + 1
+                stats["below_raised_factor"] += 1
             if bad:
-                fail(cid, "invariant: " + bad, dict(kind=kind, before=before, written=w, replica=replica))
-            if w["max"] < before["max"]:
-                fail(cid, "MaxRaftID decreased", dict(kind=kind, before=before, written=w))
-            added = [n for n in w["nodes"] if n not in before["nodes"]]
-            bisr = [n for n in before["nodes"] if n not in [r[0] for r in before["rm"]]]
+                fail(cid, "invariant: " + bad, dict(kind=kind, before=b, written=w, replica=replica))
+            if w["max"] < b["max"]:
+                fail(cid, "MaxRaftID decreased", dict(kind=kind, before=b, written=w))
+            added = [n for n in w["nodes"] if n not in b["nodes"]]
+            bisr = isr_of(b)
             if len(added) > 1:
-                fail(cid, "one-at-a-time: more than one node added in one write", dict(kind=kind, before=before, written=w))
+                fail(cid, "one-at-a-time: more than one node added in one write", dict(kind=kind, before=b, written=w))
             if added:
                 stats["adds"] += 1
                 if kind in COMPOSED:
-                    uns = [n for n in bisr if not ans.get(n, ("x", False))[1] or ans.get(n)[0] == "x"]
+                    uns = [n for n in bisr if not a(n)[1] or a(n)[0] == "x"]
                     if uns:
                         fail(cid, "add-when-unsynced: a node was added while replicas %s did not answer synced" % uns,
-                             dict(kind=kind, before=before, written=w, answers={str(k): v for k, v in ans.items()}))
-                if before["rm"]:
-                    fail(cid, "add-while-removing: a node was added while a removal is pending", dict(kind=kind, before=before, written=w))
-            newrm = [r[0] for r in w["rm"] if r[0] not in [x[0] for x in before["rm"]]]
+                             dict(kind=kind, before=b, written=w, answers={"%d/%d" % k: v for k, v in ans.items()}))
+                if b["rm"]:
+                    fail(cid, "add-while-removing: a node was added while a removal is pending", dict(kind=kind, before=b, written=w))
+            newrm = [r[0] for r in w["rm"] if r[0] not in [x[0] for x in b["rm"]]]
             if newrm:
                 stats["marks"] += 1
-                registered = [n for n in before["nodes"] if n in dn]
-                answering = [n for n in before["nodes"] if ans.get(n, ("x", False))[1]]
-                if kind in ("C", "M") and not len(registered) > replica // 2:
-                    fail(cid, "removal-marked-without-alive-majority: registered replicas %s of %s, replication %d" % (registered, before["nodes"], replica),
-                         dict(kind=kind, before=before, written=w, data_nodes=dn))
+                registered = [n for n in b["nodes"] if n in dn]
+                answering = [n for n in b["nodes"] if a(n)[1]]
+                if kind in ("C", "CS", "M") and not len(registered) > replica // 2:
+                    fail(cid, "removal-marked-without-alive-majority: registered replicas %s of %s, replication %d" % (registered, b["nodes"], replica),
+                         dict(kind=kind, before=b, written=w, data_nodes=dn))
                 if kind in ("B", "P") and not len(set(registered) | set(answering)) > replica // 2:
-                    fail(cid, "removal-marked-with-majority-unreachable: reachable replicas %s of %s, replication %d" % (sorted(set(registered) | set(answering)), before["nodes"], replica),
-                         dict(kind=kind, before=before, written=w, data_nodes=dn))
-            gone = [n for n in before["nodes"] if n not in w["nodes"]]
+                    fail(cid, "removal-marked-with-majority-unreachable: reachable replicas %s of %s, replication %d" % (sorted(set(registered) | set(answering)), b["nodes"], replica),
+                         dict(kind=kind, before=b, written=w, data_nodes=dn))
+            gone = [n for n in b["nodes"] if n not in w["nodes"]]
             if len(added) + len(gone) > 1:
-                fail(cid, "membership-step: the replica set changed by more than one member in one write", dict(kind=kind, before=before, written=w))
+                fail(cid, "membership-step: the replica set changed by more than one member in one write", dict(kind=kind, before=b, written=w))
             if gone:
                 stats["finishes"] += 1
-                if any(n not in [r[0] for r in before["rm"]] for n in gone):
-                    fail(cid, "replica dropped without having been marked removing", dict(kind=kind, before=before, written=w))
-            if sorted(w["nodes"]) == sorted(before["nodes"]) and w["nodes"] != before["nodes"]:
+                if any(n not in [r[0] for r in b["rm"]] for n in gone):
+                    fail(cid, "replica dropped without having been marked removing", dict(kind=kind, before=b, written=w))
+            if sorted(w["nodes"]) == sorted(b["nodes"]) and w["nodes"] != b["nodes"]:
                 stats["swaps"] += 1
-            if w["lrn"] != before["lrn"]:
-                stats["learner_changes"] = stats.get("learner_changes", 0) + 1
+            if w["lrn"] != b["lrn"]:
+                stats["learner_changes"] += 1
                 if kind[0] != "L":
-                    fail(cid, "learner list changed by the main placement driver", dict(kind=kind, before=before, written=w))
-            elif kind[0] == "L" and (w["nodes"] != before["nodes"] or w["rm"] != before["rm"]):
-                fail(cid, "the learner driver changed the voter set or the removal marks", dict(kind=kind, before=before, written=w))
+                    fail(cid, "learner list changed by the main placement driver", dict(kind=kind, before=b, written=w))
+            elif kind[0] == "L" and (w["nodes"] != b["nodes"] or w["rm"] != b["rm"]):
+                fail(cid, "the learner driver changed the voter set or the removal marks", dict(kind=kind, before=b, written=w))
             if w["ok"]:
                 stats["ok_writes"] += 1
-                bids = set(before["ids"])
+                bids = set(b["ids"])
                 for (n, i) in w["ids"]:
                     if (n, i) in bids:
                         continue
-                    # a newly assigned id: never seen before in the history, above every id ever used
-                    if i in ever or i <= maxseen:
-                        fail(cid, "raft-id-reuse: id %d assigned to node %d was used before (history max %d)" % (i, n, maxseen),
-                             dict(kind=kind, before=before, written=w))
+                    # a newly assigned id: never seen before in the history of this partition, above every id ever used
+                    if i in ever[pid] or i <= maxseen[pid]:
+                        fail(cid, "raft-id-reuse: id %d assigned to node %d was used before (history max %d)" % (i, n, maxseen[pid]),
+                             dict(kind=kind, before=b, written=w))
                 for (n, i) in w["ids"]:
-                    ever[i] = n
-                maxseen = max(maxseen, w["max"])
-                before = w
-        stored = state["info"]
-        if any(stored[k] != before[k] for k in ("nodes", "ids", "rm", "max", "lrn")):
-            # the register content must be the last successful write (time stamps projected)
-            fail(cid, "harness: register content is not the last successful write", dict(stored=stored, last=before))
+                    ever[pid][i] = n
+                maxseen[pid] = max(maxseen[pid], w["max"])
+                before[pid] = {k: v for k, v in w.items() if k in ("nodes", "ids", "rm", "max", "lrn")}
+        # what one round may touch: a check at most two updates per partition (finish a removal + one migration step);
+        # a balance round (stopped at its first update) and a node-removal round one partition, one update
+        if kind in ("C", "CS") and any(c > 2 for c in per_part.values()):
+            fail(cid, "round-limit: a check round made more than two updates to one partition", dict(kind=kind, per_partition=per_part))
+        if kind in ("B", "P") and (len(per_part) > 1 or sum(per_part.values()) > 1):
+            fail(cid, "round-limit: a balance / node-removal round touched more than one partition or made more than one update",
+                 dict(kind=kind, per_partition=per_part))
+        if len(per_part) > 1:
+            stats["rounds_touching_2plus"] += 1
+        stored = state["parts"]
+        for pid in stored:
+            if any(stored[pid][k] != before[pid][k] for k in ("nodes", "ids", "rm", "max", "lrn")):
+                # the register content must be the last successful write (time stamps projected)
+                fail(cid, "harness: register content is not the last successful write", dict(partition=pid, stored=stored[pid], last=before[pid]))
         dn = state["dn"]
         if state["rp"] != replica:
-            stats["factor_changes"] = stats.get("factor_changes", 0) + 1
+            stats["factor_changes"] += 1
             if kind != "G":
                 fail(cid, "harness: replication factor changed by an event other than G", {})
-            if state["rp"] < replica and quorum(stored, replica) and not quorum(stored, state["rp"]):
-                fail(cid, "lowering the factor lost the majority", dict(stored=stored))
+            for pid in stored:
+                if state["rp"] < replica and quorum(stored[pid], replica) and not quorum(stored[pid], state["rp"]):
+                    fail(cid, "lowering the factor lost the majority", dict(stored=stored[pid]))
             replica = state["rp"]
     return fails, stats
 
@@ -301,7 +326,7 @@ def run(ctx):
         log("BUILD FAILED (harness migrate):\n" + out[-3000:])
         raise SystemExit(2)
     vlib.regen_consts("Migrate", "migrate")
-    proofs_ok, info = ctx.check_proofs(make_targets=["Migrate/Proofs.vo", "Properties/C18.vo"],
+    proofs_ok, info = ctx.check_proofs(make_targets=["Migrate/Proofs.vo", "Migrate/MultiProofs.vo", "Properties/C18.vo"],
                                        gate_paths=["Migrate", "Properties/C18"])
     mok, mout, _ = vlib.model_build("Migrate")
     if not mok:
@@ -390,7 +415,7 @@ def run(ctx):
         distinct_nontrivial=len(distinct),
         rule="event sequences from one seeded PRNG on the real PDCoordinator: replication 1..5, random valid start layout "
              "(under/over-replicated, optional pending removal, id gaps), events N (registered node set), A (HTTP answers of data nodes), "
-             "T (clock), C (doCheckNamespaces full/single), M/D/R/F (bare handleNamespaceMigrate/addNamespaceToNode/"
+             "T (clock), C / CS (doCheckNamespaces over all partitions / one partition), M/D/R/F (bare handleNamespaceMigrate/addNamespaceToNode/"
              "removeNamespaceFromNode/removeNamespaceFromRemovings), X (register update failures), O (auto balance), "
              "B (rebalanceNamespace), K/P (MarkNodeAsRemoving/processRemovingNodes), the learner placement driver on the same register: "
              "LC (doCheckNamespacesForLearner), LS (start/stop key), LA/LL/LR/LX (bare addNsLearnerToNode/updateNsLearnerLeader/"
@@ -403,7 +428,8 @@ def run(ctx):
         mismatches=len(all_mism),
         samples=samples,
     ), assumptions=[
-        "one namespace with one partition per coordinator instance; at most one node being removed from the cluster at a time "
+        "one namespace with 1..3 partitions per coordinator instance (the iteration order of the rounds and the placement "
+        "answer at each use are observed on the implementation and given to the model); at most one node being removed from the cluster at a time "
         "(with two, checkIfAnyPending's result follows Go map order); at most one learner node waiting to be added per learner "
         "check (with two, their ids follow Go map order); data nodes and learner nodes have disjoint identities",
         "the placement function's proposal is taken from the implementation and fed to the model as an oracle answer "
